@@ -30,6 +30,9 @@ Inductive cinit :=
 
 Inductive case :=
 | CaseSeq (i : cinit) (ob0 : cobs) (steps : list cstep)
+| CaseBatch (i : cinit) (ob0 : cobs) (steps : list cstep) (final : cobs) (remaining : Z)
+    (* the same datagrams queued together and worked off by one handlePackets call: final state and
+       number of datagrams left in the queue (per-step outcomes/states of [steps] are not compared) *)
 | CaseTimer (creation lastRcv firstAE hsIdle kaPeriod : Z) (kaSent : bool) (kaInterval closeAt : Z) (kind : tout).
 
 Definition to_pkt (p : cpkt) : pkt :=
@@ -115,9 +118,13 @@ Fixpoint model_steps (s : state) (l : list cstep) : list (outcome * state) :=
   | st :: r => let '(s1, mo) := model_step s st in (mo, s1) :: (if terminal mo then [] else model_steps s1 r)
   end.
 
+Definition last_state (s0 : state) (l : list (outcome * state)) : state :=
+  match rev l with (_, s) :: _ => s | [] => s0 end.
+
 Definition model_obs (c : case) : obs :=
   match c with
   | CaseSeq i _ steps => ObsSeq (model_steps (to_init i) steps)
+  | CaseBatch i _ steps _ _ => ObsSeq (model_steps (to_init i) steps)
   | CaseTimer cr lr fa hi kp ks ki closeAt _ =>
       let t := mkTimer cr lr fa hi kp ks ki in ObsTimer (hs_deadline t) (snd (timeout_branch t closeAt))
   end.
@@ -125,6 +132,10 @@ Definition model_obs (c : case) : obs :=
 Definition check_case (c : case) : bool :=
   match c with
   | CaseSeq i ob0 steps => obs_ok (to_init i) ob0 && check_steps (to_init i) steps
+  | CaseBatch i ob0 steps final remaining =>
+      let ms := model_steps (to_init i) steps in
+      obs_ok (to_init i) ob0 && obs_ok (last_state (to_init i) ms) final &&
+      (Z.of_nat (List.length steps) - Z.of_nat (List.length ms) =? remaining)
   | CaseTimer cr lr fa hi kp ks ki closeAt kind =>
       let t := mkTimer cr lr fa hi kp ks ki in
       (* the run loop gave up exactly at the model's deadline, through the model's branch *)
